@@ -794,3 +794,280 @@ theorem all_pos_filterMask_self (xs : List Nat) :
   exact (List.mem_filter.mp hx).2
 
 end Biom.C12
+
+namespace Biom.C12
+
+/-! ### the kernel over all vectors -/
+
+theorem nodupB_iff {β : Type} [DecidableEq β] (l : List β) : nodupB l = true ↔ l.Nodup := by
+  induction l with
+  | nil => simp [nodupB]
+  | cons x xs ih => simp [nodupB, ih, List.nodup_cons]
+
+theorem isort_strict (c : List Nat) (hn : c.Nodup) : (isort c).Pairwise (· < ·) := by
+  have h1 := isort_sorted c
+  have h2 : (isort c).Nodup := (isort_perm c).nodup_iff.mpr hn
+  exact (h1.and h2).imp (fun h => by omega)
+
+/-- what the kernel does with a generator answer that keeps numpy's contract -/
+theorem subsampleVec_hist (n : Nat) (counts chosen : List Nat) (hne : counts ≠ []) (hl : chosen.length = n)
+    (hb : ∀ p ∈ chosen, p < counts.sum) : subsampleVec n counts chosen = .ok (hist counts chosen) := by
+  unfold subsampleVec
+  have hlen : (isort chosen).length = n := by rw [(isort_perm chosen).length_eq, hl]
+  simp only [hlen, Nat.lt_irrefl, if_false]
+  rw [← hlen, List.take_length]
+  rw [walk_hist counts (isort chosen) hne (isort_sorted chosen)
+    (fun p hp => hb p ((isort_perm chosen).mem_iff.mp hp))]
+  unfold hist
+  rw [histFrom_perm 0 counts (isort_perm chosen)]
+
+/-- one vector, without replacement -/
+def WithoutOK (n : Nat) (v o : List Nat) : Prop :=
+  o.length = v.length ∧ (v.sum < n → o.sum = 0) ∧ (n ≤ v.sum → o.sum = n) ∧ ∀ k, o.getD k 0 ≤ v.getD k 0
+
+theorem sum_map_zero (v : List Nat) : (v.map (fun _ => 0)).sum = 0 := by
+  induction v with
+  | nil => rfl
+  | cons x xs ih => simp [ih]
+
+theorem getD_map_zero (v : List Nat) (k : Nat) : (v.map (fun _ => 0)).getD k 0 = 0 := by
+  rw [List.getD_eq_getElem?_getD, List.getElem?_map]
+  cases v[k]? <;> rfl
+
+theorem kernelWithout_spec (n : Nat) (hn : 1 ≤ n) :
+    ∀ (vecs ch : List (List Nat)), choicesOK n vecs ch = true →
+      ∃ outs, kernelWithout n vecs ch = .ok outs ∧ outs.length = vecs.length ∧
+        ∀ (i : Nat) (v o : List Nat), vecs[i]? = some v → outs[i]? = some o → WithoutOK n v o := by
+  intro vecs
+  induction vecs with
+  | nil => intro ch _; exact ⟨[], rfl, rfl, by simp⟩
+  | cons v vs ih =>
+    intro ch hch
+    unfold choicesOK at hch
+    unfold kernelWithout
+    by_cases hv : v.sum < n
+    · simp only [hv, if_true] at hch ⊢
+      obtain ⟨outs, h1, h2, h3⟩ := ih ch hch
+      rw [h1]
+      refine ⟨_, rfl, by simp [h2], ?_⟩
+      intro i w o hw ho
+      cases i with
+      | zero =>
+        simp only [List.getElem?_cons_zero, Option.some.injEq] at hw ho
+        subst hw; subst ho
+        exact ⟨by simp, fun _ => sum_map_zero _, fun h => by omega, fun k => by rw [getD_map_zero]; omega⟩
+      | succ i =>
+        simp only [List.getElem?_cons_succ] at hw ho
+        exact h3 i w o hw ho
+    · simp only [hv, if_false] at hch ⊢
+      cases ch with
+      | nil => simp at hch
+      | cons c cs =>
+        simp only [Bool.and_eq_true, beq_iff_eq, List.all_eq_true, decide_eq_true_eq] at hch
+        obtain ⟨⟨⟨hnd, hlen⟩, hb⟩, hrest⟩ := hch
+        have hne : v ≠ [] := by intro he; subst he; simp at hv; omega
+        simp only []
+        rw [subsampleVec_hist n v c hne hlen hb]
+        obtain ⟨outs, h1, h2, h3⟩ := ih cs hrest
+        rw [h1]
+        refine ⟨_, rfl, by simp [h2], ?_⟩
+        intro i w o hw ho
+        cases i with
+        | zero =>
+          simp only [List.getElem?_cons_zero, Option.some.injEq] at hw ho
+          subst hw; subst ho
+          refine ⟨hist_length _ _, fun h => absurd h hv, fun _ => by rw [hist_sum v c hb, hlen], ?_⟩
+          intro k
+          have : hist v c = hist v (isort c) := by
+            unfold hist; rw [histFrom_perm 0 v (isort_perm c)]
+          rw [this]
+          exact hist_le v (isort c) (isort_strict c ((nodupB_iff c).mp hnd)) k
+        | succ i =>
+          simp only [List.getElem?_cons_succ] at hw ho
+          exact h3 i w o hw ho
+
+/-- one vector, with replacement -/
+def WithOK (n : Nat) (v o : List Nat) : Prop :=
+  o.length = v.length ∧ o.sum = n ∧ ∀ k, v.getD k 0 = 0 → o.getD k 0 = 0
+
+theorem zip_all_support (v m : List Nat) (hl : m.length = v.length)
+    (h : (v.zip m).all (fun vm => vm.1 != 0 || vm.2 == 0) = true) (k : Nat) (hk : v.getD k 0 = 0) :
+    m.getD k 0 = 0 := by
+  induction v generalizing m k with
+  | nil =>
+    cases m with
+    | nil => rfl
+    | cons y m => simp at hl
+  | cons x v ih =>
+    cases m with
+    | nil => rfl
+    | cons y m =>
+      simp only [List.zip_cons_cons, List.all_cons, Bool.and_eq_true, Bool.or_eq_true, bne_iff_ne, ne_eq,
+        beq_iff_eq] at h
+      cases k with
+      | zero =>
+        simp only [List.getD_cons_zero] at hk ⊢
+        rcases h.1 with h1 | h1
+        · exact absurd hk h1
+        · exact h1
+      | succ k =>
+        simp only [List.getD_cons_succ] at hk ⊢
+        exact ih m (by simpa using hl) h.2 k hk
+
+theorem kernelWith_spec (n : Nat) :
+    ∀ (vecs ms : List (List Nat)), multisOK n vecs ms = true → (∀ v ∈ vecs, 0 < v.sum) →
+      ∃ outs, kernelWith vecs ms = .ok outs ∧ outs.length = vecs.length ∧
+        ∀ (i : Nat) (v o : List Nat), vecs[i]? = some v → outs[i]? = some o → WithOK n v o := by
+  intro vecs
+  induction vecs with
+  | nil => intro ms _ _; exact ⟨[], rfl, rfl, by simp⟩
+  | cons v vs ih =>
+    intro ms hms hpos
+    unfold multisOK at hms
+    unfold kernelWith
+    have hvl : ¬ v.length = 0 := by
+      intro he
+      have : v = [] := List.length_eq_zero_iff.mp he
+      have := hpos v (by simp)
+      subst v; simp at this
+    cases ms with
+    | nil => simp at hms
+    | cons m ms' =>
+      simp only [Bool.and_eq_true, beq_iff_eq] at hms
+      obtain ⟨⟨⟨hl, hs⟩, hsup⟩, hrest⟩ := hms
+      obtain ⟨outs, h1, h2, h3⟩ := ih ms' hrest (fun w hw => hpos w (by simp [hw]))
+      simp only [hvl, if_false, hl, ne_eq, not_true_eq_false, h1]
+      refine ⟨_, rfl, by simp [h2], ?_⟩
+      intro i w o hw ho
+      cases i with
+      | zero =>
+        simp only [List.getElem?_cons_zero, Option.some.injEq] at hw ho
+        subst hw; subst ho
+        exact ⟨hl, hs, fun k hk => zip_all_support v m hl hsup k hk⟩
+      | succ i =>
+        simp only [List.getElem?_cons_succ] at hw ho
+        exact h3 i w o hw ho
+
+end Biom.C12
+
+namespace Biom.C12
+
+/-! ### from the kernel's values to the dense vectors, then through the two filters -/
+
+theorem dense_vec (m : Nat) (v : List Nat) (l : LVec) (o : List Nat) (hl : lvecOK m v l = true)
+    (ho : o.length = l.2.length) :
+    (scatter m (elimZeros l.1 o).1 (elimZeros l.1 o).2).length = m ∧
+    (scatter m (elimZeros l.1 o).1 (elimZeros l.1 o).2).sum = o.sum ∧ v.sum = l.2.sum ∧
+      ∀ (R : Nat → Nat → Prop), R 0 0 → (∀ k, R (o.getD k 0) (l.2.getD k 0)) →
+        ∀ j, R ((scatter m (elimZeros l.1 o).1 (elimZeros l.1 o).2).getD j 0) (v.getD j 0) := by
+  simp only [lvecOK, Bool.and_eq_true, beq_iff_eq, List.all_eq_true, decide_eq_true_eq] at hl
+  obtain ⟨⟨⟨h1, h2⟩, h3⟩, h4⟩ := hl
+  have hnd := (nodupB_iff l.1).mp h1
+  rw [scatter_elimZeros m l.1 o hnd]
+  refine ⟨scatter_length _ _ _, scatter_sum m l.1 o hnd h2 (by omega), ?_, ?_⟩
+  · rw [← h4, scatter_sum m l.1 l.2 hnd h2 h3]
+  · intro R h0 hR j
+    rw [← h4, scatter_getD, scatter_getD]
+    by_cases hj : j < m
+    · simp only [hj, if_true]
+      exact lookupN_rel R h0 l.1 o l.2 ho hR j
+    · simp only [hj, if_false]; exact h0
+
+theorem stage1_of (t : View) (lay : Lay) (outs : List (List Nat)) (P : List Nat → List Nat → Prop)
+    (hlay : layOK t lay = true) (hlen : outs.length = lay.length)
+    (h : ∀ (i : Nat) (v : List Nat) (l : LVec) (o : List Nat), t.vecs[i]? = some v → lay[i]? = some l →
+      outs[i]? = some o → lvecOK t.oids.length v l = true →
+      P v (scatter t.oids.length (elimZeros l.1 o).1 (elimZeros l.1 o).2)) :
+    (denseAfter t.oids.length lay outs).length = t.vecs.length ∧
+      ∀ (i : Nat) (v d : List Nat), t.vecs[i]? = some v → (denseAfter t.oids.length lay outs)[i]? = some d → P v d := by
+  simp only [layOK, Bool.and_eq_true, beq_iff_eq, List.all_eq_true] at hlay
+  obtain ⟨hl1, hl2⟩ := hlay
+  refine ⟨by simp [denseAfter, hlen, hl1], ?_⟩
+  intro i v d hv hd
+  simp only [denseAfter, List.getElem?_map, Option.map_eq_some_iff] at hd
+  obtain ⟨⟨l, o⟩, hz, rfl⟩ := hd
+  rw [List.getElem?_zip_eq_some] at hz
+  have hvl : (t.vecs.zip lay)[i]? = some (v, l) := List.getElem?_zip_eq_some.mpr ⟨hv, hz.1⟩
+  exact h i v l o hv hz.1 hz.2 (hl2 (v, l) (List.mem_of_getElem? hvl))
+
+theorem otherFilter_ids (ids oids : List Id) (d : List (List Nat)) : (otherFilter ids oids d).ids = ids := rfl
+theorem otherFilter_oids (ids oids : List Id) (d : List (List Nat)) :
+    (otherFilter ids oids d).oids = filterMask oids ((colSums oids.length d).map (fun s => decide (0 < s))) := rfl
+theorem otherFilter_vecs (ids oids : List Id) (d : List (List Nat)) :
+    (otherFilter ids oids d).vecs =
+      d.map (fun v => filterMask v ((colSums oids.length d).map (fun s => decide (0 < s)))) := rfl
+
+theorem viewWF_iff (t : View) : viewWF t = true ↔
+    (t.vecs.length = t.ids.length ∧ (∀ v ∈ t.vecs, v.length = t.oids.length)) ∧ t.ids.Nodup ∧ t.oids.Nodup := by
+  simp [viewWF, View.wfb, nodupB_iff, and_assoc]
+
+/-- shape of what the other-axis filter returns -/
+theorem otherFilter_wfb (ids oids : List Id) (d : List (List Nat)) (h1 : d.length = ids.length)
+    (h2 : ∀ v ∈ d, v.length = oids.length) : (otherFilter ids oids d).wfb = true := by
+  simp only [View.wfb, otherFilter_ids, otherFilter_oids, otherFilter_vecs, Bool.and_eq_true, beq_iff_eq,
+    List.length_map, List.all_eq_true, List.mem_map]
+  refine ⟨h1, ?_⟩
+  rintro _ ⟨v, hv, rfl⟩
+  exact filterMask_length_eq v oids _ (h2 v hv)
+
+theorem otherFilter_sublist (ids oids : List Id) (d : List (List Nat)) :
+    (otherFilter ids oids d).oids.isSublist oids = true := by
+  rw [otherFilter_oids, List.isSublist_iff_sublist]
+  exact filterMask_sublist _ _
+
+/-- no vector of the other axis is left all-zero -/
+theorem otherFilter_nonzero (ids oids : List Id) (d : List (List Nat)) (h2 : ∀ v ∈ d, v.length = oids.length) :
+    (colSums (otherFilter ids oids d).oids.length (otherFilter ids oids d).vecs).all (fun s => decide (0 < s)) = true := by
+  rw [otherFilter_oids, otherFilter_vecs]
+  rw [colSums_filterMask oids.length _ d _
+    (filterMask_length_eq _ oids _ (by simp))]
+  exact all_pos_filterMask_self _
+
+/-- the other-axis filter only drops zeros: sums along the axis are unchanged -/
+theorem otherFilter_sums (ids oids : List Id) (d : List (List Nat)) (h2 : ∀ v ∈ d, v.length = oids.length)
+    (n : Nat) (hs : ∀ v ∈ d, v.sum = n) : (otherFilter ids oids d).vecs.all (fun v => v.sum == n) = true := by
+  rw [otherFilter_vecs, List.all_eq_true]
+  intro w hw
+  obtain ⟨v, hv, rfl⟩ := List.mem_map.mp hw
+  rw [sum_filterMask_of_le v _ (by rw [colSums_length _ d h2, h2 v hv]) (row_le_colSums _ d h2 v hv)]
+  simp [hs v hv]
+
+/-- cells of the result, looked up by ID, are the cells of the dense grid before the filters -/
+theorem cellsRel_filters (rel : Nat → Nat → Bool) (t : View) (dense : List (List Nat)) (keep : List Bool)
+    (hwf : viewWF t = true) (hlen : dense.length = t.vecs.length)
+    (hrow : ∀ v ∈ dense, v.length = t.oids.length)
+    (hrel : ∀ (i : Nat) (v d : List Nat), t.vecs[i]? = some v → dense[i]? = some d →
+      ∀ j, rel (d.getD j 0) (v.getD j 0) = true) :
+    cellsRel rel t (otherFilter (filterMask t.ids keep) t.oids (filterMask dense keep)) = true := by
+  obtain ⟨⟨hvl, hvr⟩, hnid, hnoid⟩ := (viewWF_iff t).mp hwf
+  simp only [cellsRel, List.all_eq_true, otherFilter_ids]
+  intro id hid o ho
+  have hid' : id ∈ t.ids := mem_of_mem_filterMask hid
+  rw [otherFilter_oids] at ho
+  have ho' : o ∈ t.oids := mem_of_mem_filterMask ho
+  obtain ⟨i, hi, _, hli⟩ := lookupBy_eq_getElem? (β := List Nat) t.ids id hid'
+  obtain ⟨j, hj, _, hlj⟩ := lookupBy_eq_getElem? (β := Nat) t.oids o ho'
+  have hd : ∃ d, dense[i]? = some d := ⟨dense[i]'(by omega), List.getElem?_eq_getElem (by omega)⟩
+  have hv : ∃ v, t.vecs[i]? = some v := ⟨t.vecs[i]'(by omega), List.getElem?_eq_getElem (by omega)⟩
+  obtain ⟨d, hd⟩ := hd
+  obtain ⟨v, hv⟩ := hv
+  have hdl : d.length = t.oids.length := hrow d (List.mem_of_getElem? hd)
+  have hvl' : v.length = t.oids.length := hvr v (List.mem_of_getElem? hv)
+  -- the result's cell
+  have hr : (otherFilter (filterMask t.ids keep) t.oids (filterMask dense keep)).cell? id o = some (d.getD j 0) := by
+    simp only [View.cell?, View.vec?, otherFilter_ids, otherFilter_vecs, otherFilter_oids]
+    rw [lookupBy_map, lookupBy_filterMask t.ids dense keep id hnid hid, hli dense, hd]
+    simp only [Option.map_some, Option.bind_some]
+    rw [lookupBy_filterMask t.oids d _ o hnoid ho, hlj d, List.getD_eq_getElem?_getD,
+      List.getElem?_eq_getElem (show j < d.length by omega)]
+    rfl
+  have ht : t.cell? id o = some (v.getD j 0) := by
+    simp only [View.cell?, View.vec?]
+    rw [hli t.vecs, hv]
+    simp only [Option.bind_some]
+    rw [hlj v, List.getD_eq_getElem?_getD, List.getElem?_eq_getElem (show j < v.length by omega)]
+    rfl
+  rw [hr, ht]
+  exact hrel i v d hv hd j
+
+end Biom.C12
